@@ -196,5 +196,29 @@ def run():
         worst = max(worst, rel)
         if rel >= 0.40:
             c.violation('oracle', 'estimate %d for cardinality %d (%.0f%% off)' % (est, card, rel * 100), [l])
+    # ... and for LARGE cardinalities ("from 100 upward" has no upper end): elements generated on the fly in the release
+    # worker (about 7 ns per element), around and beyond the estimator's large-range switch at 2^32/30 = 143,165,576
+    big = [150_000_000, 400_000_000] if c.tier == 'quick' else [120_000_000, 150_000_000, 300_000_000, 1_000_000_000, 3_000_000_000, 6_000_000_000]
+    try:
+        from ..common import Proc, build_worker
+        rel_worker = Proc(build_worker(release=True), timeout=900)
+        bl = ['HLB %d %d %d' % (n, rng.randrange(1, 1 << 62), rng.randrange(24)) for n in big for _ in range(2)]
+        br = rel_worker.run(bl)
+        c.evaluations += len(bl)
+        worst_big = 0.0
+        for l, a in zip(bl, br):
+            n = int(l.split(' ')[1])
+            if not a.startswith('ok'):
+                c.violation('oracle', 'estimate of a large sketch did not return: %s' % a[:60], [l])
+                continue
+            est = int(a.split(' ')[1])
+            rel = abs(est - n) / n
+            worst_big = max(worst_big, rel)
+            c.count('large_cardinality_trials')
+            if rel >= 0.40:
+                c.violation('oracle', 'estimate %d for %d uniformly random elements (%.0f%% off)' % (est, n, rel * 100), [l])
+        c.extra['statistical_test_large'] = {'label': 'test, not a theorem', 'cardinalities': big, 'worst_relative_error': round(worst_big, 4)}
+    except Exception as ex:
+        c.violation('oracle', 'the large-cardinality envelope test could not run: %s' % str(ex)[:80], ['# release worker'], found=False)
     c.extra['statistical_test'] = {'label': 'test, not a theorem', 'trials': len(st_lines), 'worst_relative_error': round(worst, 4)}
     c.finish()
